@@ -66,6 +66,7 @@ MENU = {"quick": R.MENU_QUICK, "thorough": R.MENU_THOROUGH}
 
 def bounds(tier):
     return {"depth": DEPTH[tier], "menu_size": len(MENU[tier]), "menu": MENU[tier],
+            "additional_roots": {"prefixes": ROOTS, "explored": "set/variable events only, to history length depth+1"},
             "meshes": {e[2:]: {"elements": R.MESHES[e[2:]]["elements"], "row_order": R.MESHES[e[2:]]["order"],
                                "z": R.MESHES[e[2:]]["z"]} for e in MENU[tier] if e.startswith("G:")}}
 
@@ -559,6 +560,7 @@ def _succ_keys(args):
 
 
 _frontier_cache = {}
+ROOTS = [["G:tri3", "G:tet4"]]
 
 
 def _frontier(tier):
@@ -594,6 +596,31 @@ def _frontier(tier):
                 nxt.append({"hist": s["hist"] + [eid], "twin": s["hist"] if status == "raised" else None, "depth": d, "key": full})
         states += nxt
         level = nxt
+    # Additional roots ("start from non-initial states too"): a file that already holds a planar and a solid geometry.
+    # From there only set / variable events are explored, one level deeper than the main search reaches, so that
+    # histories like [geometry A, geometry B, variable of A, failing variable of B] are covered already in the quick tier.
+    nongeo = [e for e in menu if not e.startswith("G:")]
+    for prefix in ROOTS:
+        lvl = [list(prefix)]
+        for d in range(len(prefix) + 1, depth + 1):
+            tasks = [(h, nongeo) for h in lvl]
+            if nproc > 1 and len(tasks) > 1:
+                with mp.get_context("fork").Pool(min(nproc, len(tasks))) as pool:
+                    results = pool.map(_succ_keys, tasks, chunksize=1)
+            else:
+                results = [_succ_keys(t) for t in tasks]
+            nxt, seen_lvl = [], set()
+            for h, succ in zip(lvl, results):
+                for eid, status, full, unjudged in succ:
+                    replays += 1
+                    if unjudged or full in seen_lvl:
+                        continue
+                    seen_lvl.add(full)
+                    nxt.append(h + [eid])
+                    if full not in known:
+                        known.add(full)
+                        states.append({"hist": h + [eid], "twin": h if status == "raised" else None, "depth": d, "key": full, "nongeo": True})
+            lvl = nxt
     _frontier_cache[tier] = (states, replays)
     return states, replays
 
@@ -623,7 +650,7 @@ def run_shard(shard):
             seen.add(s["key"])          # s itself was judged by the shard that expanded its predecessor
             if s["twin"] is not None:
                 acc.count("states reached by a failed call that changed the full key (expanded with twin comparison)")
-            for eid in menu:
+            for eid in ([e for e in menu if not e.startswith("G:")] if s.get("nongeo") else menu):
                 r = _transition(s["hist"], eid, seen=seen)
                 acc.cases += 1
                 acc.transitions += 1
